@@ -121,6 +121,10 @@ const DISPLAY_OVERHEAD_LIMIT: usize = 24;
 const LEADING_ZERO_THRESHOLD: i128 = 5;
 const TRAILING_ZERO_THRESHOLD: i128 = 15;
 
+/// every scale in -2100..=2100 (x 2 digit strings)
+const SCALE_SWEEP: u64 = 4201 * 2;
+/// every digit count 1..=1100
+const LEN_SWEEP: u64 = 1100;
 const GRID_LENS: u64 = 40;
 const GRID_SCALES: u64 = 101; // -40..=60
 const GRID_PATTERNS: u64 = 6;
@@ -366,6 +370,8 @@ impl Property for C04 {
     }
     fn runs(&self, tier: Tier) -> u64 {
         grid_cells(tier)
+            + SCALE_SWEEP
+            + LEN_SWEEP
             + match tier {
                 Tier::Quick => 36_000,
                 Tier::Thorough => 3_000_000,
@@ -385,6 +391,30 @@ impl Property for C04 {
             };
             let digits = pattern_digits(rng, pat, len);
             return Trace { value: Dec::new(neg, &digits, scale), ops: ALL_OPS.to_vec(), env: EnvSel::All };
+        }
+        // two more deterministic sweeps: block boundaries of any buffered writer show up as particular scales
+        // (plain notation pads |scale| zeros) and particular digit counts (every notation copies the digits)
+        let r = run - cells;
+        if r < SCALE_SWEEP {
+            let scale = r as i64 / 2 - 2100;
+            let digits = if r % 2 == 0 { "1".to_string() } else { format!("{}", 100 + rng.below(900)) };
+            return Trace { value: Dec::new((r / 2) % 2 == 1, &digits, scale), ops: ALL_OPS.to_vec(), env: EnvSel::All };
+        }
+        let r = r - SCALE_SWEEP;
+        if r < LEN_SWEEP {
+            let len = r as usize + 1;
+            let mut digits = String::with_capacity(len);
+            digits.push((b'1' + rng.below(9) as u8) as char);
+            for _ in 1..len {
+                digits.push((b'0' + rng.below(10) as u8) as char);
+            }
+            let scale = match r % 3 {
+                0 => 0,
+                1 => rng.range(-30, len as i64 + 30),
+                _ => len as i64 + rng.range(-2, 8),
+            };
+            // the sink-fault set is independent of the digit count: one environment keeps long values cheap
+            return Trace { value: Dec::new(r % 2 == 1, &digits, scale), ops: ALL_OPS.to_vec(), env: EnvSel::One(SinkSpec::FailAt { k: (r % 5) as usize, sticky: false }) };
         }
         let cfg = ValueCfg::swarm(rng, 3000, 1_000_000_000_000_000);
         let (value, _) = gen::gen_dec(rng, &cfg);
